@@ -78,6 +78,12 @@ def run(rep):
                             "every history of <= 3 insert/remove operations over 12 quads on the four default store types, after each operation all 16 (8) bound/unbound pattern shapes and 14 (8) queries with other matcher kinds (Not of one / several / an unknown constant, several constants, closures, TermKind, Option, graph-name Not / closure) against a set oracle; contains() for every quad of the universe and the term enumerations (subjects ... literals, graph_names; as sets) after every step; remove_matching / retain_matching (11 matcher combinations) and insert_all / remove_all of streams with duplicates from every initial content of <= 3 quads on Fast/Light datasets, HashSet<Spog> and BTreeSet<Spog>, contents and counts against the oracle; index-full scenario on the four 16-bit stores",
                             "histories <= 3 ops, 12 quads, constants from the operation's quad", "triples_matching / quads_matching dispatch of GenericFast/LightGraph/Dataset (inmem/src/graph.rs, dataset.rs), SimpleTermIndex (inmem/src/index.rs), the matcher implementations they consult (api/src/term/matcher/*.rs: constant(), matches())",
                             "./check C01 --replay <this file>")
+    # the same enumeration compiled WITHOUT debug assertions (as in a release build): code placed inside a
+    # debug_assert! disappears there
+    native.bounded_stand_in(rep, ID, "c01", [], "c01_histories_and_shapes_without_debug_assertions",
+                            "the same enumeration, the crates compiled with debug assertions off (release semantics of debug_assert!)",
+                            "histories <= 3 ops, 12 quads, constants from the operation's quad; debug-assertions = false", "the same functions, in the configuration where debug_assert! arguments are not evaluated",
+                            "./check C01 --replay <this file>   # CARGO_PROFILE_DEV_DEBUG_ASSERTIONS=false", env={"CARGO_PROFILE_DEV_DEBUG_ASSERTIONS": "false"})
     rep.not_covered += [
         "the dispatch in triples_matching / quads_matching (which index and range is scanned, constant() hints, the closure-based filter/map arms): not under contract (only the five matching iterators' next() are); covered by the bounded native stand-in only",
         "bulk default methods insert_all/remove_all/remove_matching/retain_matching: covered by the bounded native stand-in only (stream part: C15)",
